@@ -134,6 +134,34 @@ def control(r):
 PROFILES = {"plain": (0.6, 0.4, 0.0), "control": (0.35, 0.35, 0.3), "vars": (0.3, 0.65, 0.05)}
 
 
+def pure_cond(r, d=0):
+    """a condition over cells and literals only (no variables, no effects)"""
+    k = r.random()
+    if d >= 2 or k < 0.25:
+        return r.choice([hdr(r), f'{hdr(r)} == {sterm(r)}', f"{nhdr(r)} == {nterm(r)}"])
+    if k < 0.5:
+        return f"{r.choice(['above', 'below', 'gt', 'lte', 'gte'])}({nhdr(r)}, {nterm(r)})"
+    if k < 0.6:
+        return f"not({pure_cond(r, d + 1)})" if d > 0 else f"not({hdr(r)})"
+    if k < 0.7:
+        return f"{r.choice(['and', 'or'])}({r.choice(['exists', 'empty'])}({hdr(r)}), {r.choice(['exists', 'empty'])}({hdr(r)}))"
+    if k < 0.8:
+        return f"{r.choice(['exists', 'empty'])}({hdr(r)})"
+    if k < 0.9:
+        return f'in({hdr(r)}, "x|y|3|Fish")'
+    return f"starts_with({hdr(r)}, {sterm(r)})"
+
+
+def onmatch_part(r):
+    """1-3 pure conditions and one component that acts only on matching lines"""
+    conds = [pure_cond(r) for _ in range(r.randint(1, 3))]
+    eff = r.choice([f'push.onmatch("om", {hdr(r)})', 'print.onmatch("m $.csvpath.line_number $.headers.a")', f"@hit.onmatch = {hdr(r)}",
+                    f"counter.onmatch.cm({r.randint(1, 2)})", f'push.onmatch("ln", line_number())', f"@last_a.onmatch.notnone = {hdr(r)}"])
+    comps = conds[:]
+    comps.insert(r.randint(0, len(comps)), eff)
+    return r.choice([" ", "\n"]).join(comps)
+
+
 def component(r, profile):
     pc, pe, pk = PROFILES[profile]
     k = r.random()
@@ -148,6 +176,8 @@ def component(r, profile):
 
 
 def match_part(r, profile="plain", max_components=5):
+    if profile == "onmatch":
+        return onmatch_part(r)
     comps = [component(r, profile) for _ in range(r.randint(1, max_components))]
     if r.random() < 0.15:
         # a variable filled from a cell (possibly empty, blank or the word None) and then used as an existence test
